@@ -29,7 +29,7 @@ type FuncEffects struct {
 	DynCalls     []string          // calls through function values / interfaces (description@pos)
 	MapRanges    []string          // range over Go maps (positions)
 	Allocates    bool
-	ParamCalls   map[int]bool // calls through function-typed parameters (by parameter index)
+	ParamCalls   map[int]bool           // calls through function-typed parameters (by parameter index)
 	FuncValues   map[*types.Func]string // package functions used as values (not called) -> position
 }
 
